@@ -146,5 +146,6 @@ func main() {
 		genEffects(p, *out)
 		genAcc(p, *out)
 		genDump(p, *out)
+		genString(p, *out)
 	}
 }
